@@ -192,6 +192,7 @@ impl Property for C13 {
                     let st = crate::refsem::solution_sets(&case.pg.program, g, 2, 50).st;
                     let dc = super::c10::diff_class(&a, &b);
                     let co = if st.co_cycle && !dc.contains("repeated-var") { ":coinductive-cycle" } else { "" };
+                    let co = if co.is_empty() && sv != Sv::Slg { env_qual(g, &case.pg.program) } else { co };
                     out.fail(
                         format!("{}:order-differs:{}{}", sv.name(), dc, co),
                         format!("[{}] goal `{}`: original program gives `{}`, permuted program gives `{}`\n--- original\n{}--- permuted\n{}", sv.name(), lg.text, a, b, low.text, ptext),
